@@ -176,6 +176,75 @@ def _skip_from_cond(cond: str, keyvar: str) -> typing.List[str]:
     raise Unsupported('loop condition `%s`' % cond)
 
 
+def c_context(text: str, pos: int, where: str) -> typing.Tuple[bool, typing.List[str]]:
+    """C/C++ level context of offset `pos` of a template (Jinja comments already blanked): (inside a /* */ or // comment?,
+    enclosing preprocessor conditionals that are not include guards).  An include guard is `#ifndef X` directly followed by
+    `#define X`.  A conditional whose #else/#elif branch is the open one is reported with that branch.  Linear scan of the
+    template text: preprocessor lines produced under Jinja conditionals are treated as if always emitted (fail-closed side)."""
+    pre = text[:pos]
+    lines = pre.split('\n')
+    in_block = False
+    stack: typing.List[typing.List[str]] = []     # [directive text, 'guard' | 'cond']
+    in_line_comment_at_end = False
+    all_lines = text.split('\n')
+    for li, line in enumerate(lines):
+        last = li == len(lines) - 1
+        code = ''
+        i, in_str, in_line = 0, False, False
+        while i < len(line):
+            two = line[i:i + 2]
+            if in_block:
+                if two == '*/':
+                    in_block = False
+                    i += 2
+                    continue
+                i += 1
+                continue
+            if in_str:
+                if line[i] == '\\':
+                    i += 2
+                    continue
+                if line[i] == '"':
+                    in_str = False
+                code += line[i]
+                i += 1
+                continue
+            if two == '//':
+                in_line = True
+                break
+            if two == '/*':
+                in_block = True
+                i += 2
+                continue
+            if line[i] == '"':
+                in_str = True
+            code += line[i]
+            i += 1
+        if last:
+            in_line_comment_at_end = in_line
+        m = re.match(r'\s*#\s*(ifdef|ifndef|if|elif|else|endif)\b\s*(.*?)\s*$', code)
+        if not m or (last and not line.strip().startswith('#')):
+            continue
+        d, arg = m.group(1), _norm(m.group(2))
+        if d in ('if', 'ifdef', 'ifndef'):
+            kind = 'cond'
+            if d == 'ifndef':
+                nxt = next((l for l in all_lines[li + 1:] if l.strip()), '')
+                dm = re.match(r'\s*#\s*define\s+(.+?)\s*$', nxt)
+                if dm and _norm(dm.group(1)) == arg:
+                    kind = 'guard'
+            stack.append(['#%s %s' % (d, arg), kind])
+        elif d in ('elif', 'else'):
+            if not stack:
+                raise Unsupported('%s: #%s without #if' % (where, d))
+            stack[-1] = [stack[-1][0] + ' / #%s %s' % (d, arg), 'cond']
+        else:
+            if not stack:
+                raise Unsupported('%s: #endif without #if' % where)
+            stack.pop()
+    return (in_block or in_line_comment_at_end), [t for t, k in stack if k != 'guard']
+
+
 KS_EXPR = 'options.keys() | sort(case_sensitive=true) | join(",") | ' + FILTER
 
 
@@ -211,7 +280,7 @@ def scan_keyset(lang: str, kind: str, text: str) -> typing.Tuple[typing.Optional
     statement blanked out so that the per-option scanner sees the loop only)"""
     where = TEMPLATES[(lang, kind)]
     if kind == 'type':
-        rx = r'static_assert\(\s*(?P<sym>[\w:]+)\s*==\s*\{\{\s*(?P<e>[^}]*?)\s*\}\}\s*,(?P<msg>[^;]*?)\)\s*;'
+        rx = r'^[ \t]*static_assert\(\s*(?P<sym>[\w:]+)\s*==\s*\{\{\s*(?P<e>[^}]*?)\s*\}\}\s*,(?P<msg>[^;]*?)\)\s*;[ \t]*$'
     elif lang == 'c':
         rx = r'^[ \t]*#[ \t]*define[ \t]+(?P<sym>\w+)[ \t]+\{\{\s*(?P<e>[^}]*?)\s*\}\}[ \t]*$'
     else:
@@ -250,7 +319,8 @@ def scan_keyset(lang: str, kind: str, text: str) -> typing.Tuple[typing.Optional
         sym = '::'.join(_namespaces(text[:m.start()], where) + [sym])
     blanked = text[:lo] + re.sub(r'[^\n]', ' ', text[lo:hi]) + text[hi:]
     msg_exprs = [_norm(e) for e in re.findall(r'\{\{\s*(.*?)\s*\}\}', m.group('msg'), re.S)] if kind == 'type' else []
-    return {'symbol': sym, 'unless_omit': unless_omit, 'msg_exprs': msg_exprs}, blanked
+    in_comment, pp = c_context(text, m.start('sym'), where)
+    return {'symbol': sym, 'unless_omit': unless_omit, 'msg_exprs': msg_exprs, 'in_comment': in_comment, 'pp': pp, 'pos': m.start()}, blanked
 
 
 def scan_loop(lang: str, kind: str, text: str) -> dict:
@@ -331,7 +401,7 @@ def scan_loop(lang: str, kind: str, text: str) -> dict:
 
     msg_exprs: typing.List[str] = []
     if kind == 'type':
-        am = re.search(r'static_assert\(\s*(?P<lhs>[^\n]+?)\s*==\s*\{\{\s*(?P<val>[^}]+?)\s*\}\}\s*,(?P<msg>.*?)\)\s*;', body, re.S)
+        am = re.search(r'^[ \t]*static_assert\(\s*(?P<lhs>[^\n]+?)\s*==\s*\{\{\s*(?P<val>[^}]+?)\s*\}\}\s*,(?P<msg>.*?)\)\s*;[ \t]*$', body, re.S | re.M)
         if not am or am.start() > body.index(FILTER):
             raise Unsupported('%s: no `static_assert( <symbol> == {{ value | %s }}, ...);` in the loop' % (where, FILTER))
         if MESSAGE not in re.sub(r'"\s*"', '', am.group('msg')):
@@ -364,11 +434,50 @@ def scan_loop(lang: str, kind: str, text: str) -> dict:
     val = re.sub(r'\|\s*ln\.c\.' + FILTER, '| ' + FILTER, val)
     if keyvar == valvar:
         raise Unsupported('%s: loop variables' % where)
+    # C-level context of the statements: comments, preprocessor conditionals, includes before the assertions
+    stmt_pos = for_m.end() + am.start('lhs')
+    in_comment, pp = c_context(text, stmt_pos, where)
+    for_comment, for_pp = c_context(text, for_m.start(), where)
+    in_comment = in_comment or for_comment
+    pp = pp + [x for x in for_pp if x not in pp]
+    first_pos = stmt_pos
+    if keyset is not None:
+        in_comment = in_comment or keyset['in_comment']
+        pp = pp + [x for x in keyset['pp'] if x not in pp]
+        first_pos = min(first_pos, keyset['pos'])
+    includes_before = True
+    if kind == 'type':
+        # the include loop `{% for n in T | includes %} #include {{ n }} {% endfor %}` must precede every assertion, live
+        includes_before = False
+        fm = re.search(r'\{%-?\s*for\s+(\w+)\s+in\s+T\s*\|\s*includes\s*-?%\}', text)
+        if fm:
+            depth, iend = 0, None
+            for m_, w_, rest_ in _tags(text):
+                if m_.start() < fm.end():
+                    continue
+                if w_ in OPENERS or (w_ == 'set' and '=' not in rest_):
+                    depth += 1
+                elif w_.startswith('end'):
+                    if depth == 0:
+                        iend = m_ if w_ == 'endfor' else None
+                        break
+                    depth -= 1
+            if iend is not None and iend.end() <= first_pos:
+                ibody = text[fm.end():iend.start()]
+                lm = re.search(r'^[ \t]*#[ \t]*include[ \t]+\{\{\s*%s\s*\}\}[ \t]*$' % re.escape(fm.group(1)), ibody, re.M)
+                if lm:
+                    ipos = fm.end() + lm.start() + lm.group(0).index('#')
+                    ic, ipp = c_context(text, ipos, where)
+                    inner_stack = [(w_, _norm(r_)) for w_, r_, _m in _block_stack(text, ipos, where)]
+                    outer_ok = all(x == ('if', 'not nunavut.support.omit') for x in inner_stack[:-1]) if inner_stack else False
+                    includes_before = (not ic) and not [x for x in ipp if x not in pp] and bool(inner_stack) \
+                        and inner_stack[-1][0] == 'for' and outer_ok
     if keyset is not None and keyset['unless_omit'] != unless_omit:
         raise Unsupported('%s: the key-set fingerprint and the option loop are not under the same omit condition' % where)
     return {'iter': iter_expr, 'skip': sorted(set(skip)), 'name': name, 'value': val, 'unless_omit': unless_omit,
             'keyset': keyset['symbol'] if keyset else None,
-            'msg_exprs': sorted(set(msg_exprs + (keyset['msg_exprs'] if keyset else [])))}
+            'msg_exprs': sorted(set(msg_exprs + (keyset['msg_exprs'] if keyset else []))),
+            'in_comment': in_comment, 'pp': pp, 'includes_before': includes_before}
 
 
 # ---------------------------------------------------------------------------------------------
@@ -456,6 +565,7 @@ def load_facts() -> dict:
             raise Unsupported('nunavut.lang.%s has no options' % lang)
         opts[lang] = list(o.items())
         groups[lang] = {k: dict(v) for k, v in (sec.get('defaults') or {}).items()}
+    docs_vals = docs_option_values([k for lang in ('c', 'cpp') for k, _ in opts[lang]])
     domain: typing.Dict[str, typing.List[typing.Tuple[str, list]]] = {}
     optional: typing.Dict[str, typing.List[str]] = {'c': [], 'cpp': []}
     for lang in ('c', 'cpp'):
@@ -473,6 +583,7 @@ def load_facts() -> dict:
                     vals.append(groups[lang].get(s, {}).get('std', s))   # shorthand -> effective value
             if k == 'ctor_convention':
                 vals += ctor
+            vals += [v for v in docs_vals.get(k, []) if type(v) is type(dv)]   # values shown in docs/*.rst
             for g in groups[lang].values():
                 if k in g:
                     vals.append(g[k])
@@ -521,11 +632,92 @@ def load_facts() -> dict:
             'effective_defaults': probe['effective'], 'endianness': endian, 'std_choices': std_by_lang, 'ctor': ctor}
 
 
+# ---------------------------------------------------------------------------------------------
+# T1: which template renders each composite class, and does it reach the guard of base.j2?
+# ---------------------------------------------------------------------------------------------
+
+def composite_classes() -> typing.List[typing.Tuple[str, typing.List[str]]]:
+    """concrete pydsdl composite classes with their MRO names (pydsdl is a third-party library, imported for data)"""
+    import pydsdl
+
+    def subs(c):
+        out = []
+        for x in c.__subclasses__():
+            out.append(x)
+            out += subs(x)
+        return out
+    seen, out = set(), []
+    for c in subs(pydsdl.CompositeType):
+        if c.__name__ not in seen:
+            seen.add(c.__name__)
+            out.append((c.__name__, [b.__name__ for b in c.__mro__]))
+    return out
+
+
+def template_reaches_guard(lang: str, name: str, seen: typing.Tuple[str, ...] = ()) -> bool:
+    """True iff rendering templates/<name> necessarily renders base.j2 outside of any block, i.e. the scanned guard:
+    `extends "<literal>"` as the first tag (child templates can only replace blocks, and scan_loop has established that the
+    guard of base.j2 is outside every block), or an unconditional top-level `include '<literal>'`."""
+    d = 'src/nunavut/lang/%s/templates/' % lang
+    if name in seen:
+        return False
+    if name == 'base.j2':
+        return True
+    try:
+        text = _strip_comments(gen.read_repo(d + name))
+    except OSError:
+        return False
+    tags = list(_tags(text))
+    if tags and tags[0][1] == 'extends':
+        m = re.fullmatch(r'''(["'])([\w./-]+)\1''', tags[0][2].strip())
+        return bool(m) and not text[:tags[0][0].start()].strip() and template_reaches_guard(lang, m.group(2), seen + (name,))
+    if any(w == 'extends' for _m, w, _r in tags):
+        return False
+    for m_, w, rest in tags:
+        if w == 'include':
+            im = re.fullmatch(r'''(["'])([\w./-]+)\1''', rest.strip())
+            if im and not _block_stack(text, m_.start() - 1 if m_.start() else 0, name) and template_reaches_guard(lang, im.group(2), seen + (name,)):
+                return True
+    return False
+
+
+def entry_templates(lang: str) -> typing.List[typing.Tuple[str, str, bool]]:
+    d = os.path.join(gen.REPO, 'src/nunavut/lang/%s/templates' % lang)
+    have = set(os.listdir(d))
+    out = []
+    for cls, mro in composite_classes():
+        t = next((b + '.j2' for b in mro if b + '.j2' in have), '')
+        out.append((cls, t, bool(t) and template_reaches_guard(lang, t)))
+    return out
+
+
+def docs_option_values(keys: typing.Iterable[str]) -> typing.Dict[str, list]:
+    """`key: value` lines of the YAML examples in docs/languages.rst and docs/templates.rst for known option keys"""
+    import yaml
+    out: typing.Dict[str, list] = {}
+    ks = set(keys)
+    for rel in ('docs/languages.rst', 'docs/templates.rst'):
+        try:
+            text = gen.read_repo(rel)
+        except OSError:
+            continue
+        for m in re.finditer(r'^[ \t]+(\w+):[ \t]+(\S.*?)[ \t]*$', text, re.M):
+            if m.group(1) in ks:
+                try:
+                    v = yaml.safe_load(m.group(2))
+                except Exception:
+                    continue
+                if isinstance(v, (bool, int, str)):
+                    out.setdefault(m.group(1), []).append(v)
+    return out
+
+
 def _coq_side(name: str, s: dict) -> str:
-    return ('Definition %s : side :=\n  {| sd_iter := %s;\n     sd_skip := [%s];\n     sd_name := %s;\n     sd_value := %s;\n     sd_unless_omit := %s;\n     sd_keyset := %s;\n     sd_msg_exprs := [%s] |}.'
+    return ('Definition %s : side :=\n  {| sd_iter := %s;\n     sd_skip := [%s];\n     sd_name := %s;\n     sd_value := %s;\n     sd_unless_omit := %s;\n     sd_keyset := %s;\n     sd_msg_exprs := [%s];\n     sd_in_comment := %s;\n     sd_pp_context := [%s];\n     sd_includes_before := %s |}.'
             % (name, coq_str(s['iter']), '; '.join(coq_str(k) for k in s['skip']), coq_str(s['name']), coq_str(s['value']),
                'true' if s['unless_omit'] else 'false', ('Some %s' % coq_str(s['keyset'])) if s['keyset'] else 'None',
-               '; '.join(coq_str(e) for e in s['msg_exprs'])))
+               '; '.join(coq_str(e) for e in s['msg_exprs']), 'true' if s['in_comment'] else 'false',
+               '; '.join(coq_str(e) for e in s['pp']), 'true' if s['includes_before'] else 'false'))
 
 
 def gen_optguard() -> typing.Tuple[bool, str]:
@@ -537,6 +729,8 @@ def gen_optguard() -> typing.Tuple[bool, str]:
             raise Unsupported('lang/cpp defines its own %s (the unqualified filter name would resolve differently)' % FILTER)
         sides = {k: scan_loop(k[0], k[1], gen.read_repo(rel)) for k, rel in TEMPLATES.items()}
         facts = load_facts()
+        entries = {lang: entry_templates(lang) for lang in ('c', 'cpp')}
+        classes = [c for c, _ in composite_classes()]
     except (Unsupported, SyntaxError, OSError, ValueError, KeyError, subprocess.SubprocessError) as ex:
         gen.write_if_changed(OUT, HEAD + '(* translator failed closed: %s *)\n' % str(ex).replace('*)', '* )').replace('(*', '( *'))
         return False, 'C17 translator failed closed: %s' % ex
@@ -555,6 +749,11 @@ def gen_optguard() -> typing.Tuple[bool, str]:
                      % (lang, ';\n   '.join('[%s]' % '; '.join(coq_str(k) for k in ks) for ks in facts['keysets'][lang])))
         parts.append('(* symbol rendered for each key by the real filter *)\nDefinition %s_names : list (list N * list N) :=\n  [%s].'
                      % (lang, ';\n   '.join('(%s, %s)' % (coq_str(k), coq_str(n)) for k, n in facts['names'][lang])))
+    parts.append('(* concrete pydsdl composite classes; per language: (class, template that renders it, template reaches the guard) *)\n'
+                 'Definition composite_classes : list (list N) :=\n  [%s].' % '; '.join(coq_str(c) for c in classes))
+    for lang in ('c', 'cpp'):
+        parts.append('Definition %s_entry_templates : list (list N * list N * bool) :=\n  [%s].'
+                     % (lang, ';\n   '.join('(%s, %s, %s)' % (coq_str(c), coq_str(t), 'true' if r else 'false') for c, t, r in entries[lang])))
     parts.append('(* fully qualified option symbols *)\nDefinition c_symbols : list (list N) := map snd c_names.\n'
                  'Definition cpp_symbols : list (list N) := map (fun kn => %s ++ snd kn) cpp_names.' % coq_str('nunavut::support::options::'))
     gen.write_if_changed(OUT, HEAD + '\n\n'.join(parts) + '\n')
